@@ -5,6 +5,7 @@ from props import common
 
 THM = "NextestModel.Thm.C20"
 GEN = ["tables"]
+GEN_GROUPS = ["escape", "setdef"]
 TRUSTED = ["model: Model/Syntax (hand-written mirror of parsing.rs / unicode_string.rs / glob.rs text handling; corresponded on every generated string)",
            "regex / globset validity of a pattern is an input to the model (asked from those crates directly)",
            "winnow is not modelled; stack depth is not expressible in the model (deep-nesting stream runs the real parser in a subprocess)"]
